@@ -191,3 +191,15 @@ func vB2U(b bool) uint64 {
 }
 
 func utilSeqPeek(h *handler1) (uint16, bool) { return util.VSeqPeek(h.topicID) }
+
+func vBackground() (context.Context, context.CancelFunc) {
+	return context.WithCancel(context.Background())
+}
+
+// vInitHandlerConns wires recording connections and an errgroup into a handler.
+func vInitHandlerConns(x *vH) {
+	var gctx context.Context
+	x.h.group, gctx = errgroup.WithContext(x.ctx)
+	x.h.snConn = util.NewConnWithContext(context.Background(), x.sn, connTimeout)
+	x.h.mqttConn = util.NewConnWithContext(gctx, x.mq, connTimeout)
+}
